@@ -218,6 +218,20 @@ pub fn after_txn(w: &mut World, r: usize, effects: &[Effect], _emitted: usize, _
         let mut nested: Vec<&Item> = vec![];
         // writes of this transaction per register, in call order
         let mut per_reg: Vec<((String, String), Vec<String>)> = vec![];
+        // registers whose last operation in this transaction is a write (not a removal / clear)
+        let mut ends_written: Vec<(String, String)> = vec![];
+        for e in effects {
+            match e {
+                Effect::MapSet { c, key, .. } => {
+                    if !ends_written.contains(&(c.clone(), key.clone())) {
+                        ends_written.push((c.clone(), key.clone()));
+                    }
+                }
+                Effect::MapRemove { c, key } => ends_written.retain(|x| !(x.0 == *c && x.1 == *key)),
+                Effect::MapClear { c } => ends_written.retain(|x| x.0 != *c),
+                _ => {}
+            }
+        }
         for e in effects {
             match e {
                 Effect::MapSet { c, key, item } => {
@@ -243,6 +257,21 @@ pub fn after_txn(w: &mut World, r: usize, effects: &[Effect], _emitted: usize, _
         let own = w.reps[r].cfg.id;
         let from = w.ext.clock_before;
         let created: Vec<yrs::verif::BlockInfo> = yrs::verif::store_blocks(&txn).into_iter().filter(|b| b.id.client.get() == own && b.id.clock + b.len > from).collect();
+        // mechanism anchored by C05: a write makes a *new* entry right of the current one - also when it repeats the
+        // value the key already shows (otherwise a concurrent removal that had seen only the old entry erases the write).
+        // Checked where it is observable: the container is still reachable on the author after the transaction.
+        for (c, key) in ends_written.iter() {
+            let Some(bid) = branch_id_of(&w.reps[r], c) else { continue };
+            let Some(chain) = yrs::verif::map_chain(&txn, &bid, key) else { continue };
+            w.cnt.inc("c05_written_registers_with_entry_checked");
+            let newest = chain.first();
+            let ok = matches!(newest, Some(b) if b.id.client.get() == own && b.id.clock + b.len > from && !b.deleted);
+            if !ok {
+                let d = format!("r{}: after a transaction whose last operation on {}[{}] is a write, the newest entry of the key is {:?} - not an entry made by this transaction (clocks from {})", own, c, key, newest.map(|b| (b.id.client.get(), b.id.clock, b.deleted)), from);
+                drop(txn);
+                return v(w, "C05", "write-made-no-entry", d);
+            }
+        }
         for ((c, key), labels) in per_reg {
             let mut fresh: Vec<Uid> = vec![];
             for b in created.iter() {
@@ -339,6 +368,21 @@ pub fn relay_payload(w: &mut World, from: usize, to: usize, form: u8, sv: &State
                 return v(w, "C02", "export-drops-content", d);
             }
         }
+        // ... and every deletion the replica was handed, applied or still waiting for its target in the
+        // pending delete set (the delete set of a full-state export is not restricted by the vector)
+        let ds = u.delete_set();
+        let mut waiting = 0u64;
+        for d in src.model.del.iter() {
+            if !integ.contains(d) {
+                waiting += 1;
+            }
+            if !ds.contains(&yrs::ID::new(yrs::ClientID::new(d.0), d.1)) {
+                let d = format!("encode_state_as_update of r{} does not carry the deletion of unit {:?} which it was handed (unit integrated there: {}; has stash: {})", src.cfg.id, d, integ.contains(d), src.doc.transact().has_missing_updates());
+                return v(w, "C02", "export-drops-deletion", d);
+            }
+        }
+        w.cnt.add("c02_export_deletions_checked", src.model.del.len() as u64);
+        w.cnt.add("c02_export_deletions_still_waiting_for_target", waiting);
         w.cnt.inc("c02_exports_checked");
     }
     if w.mon.c06 {
@@ -693,12 +737,27 @@ fn create_sticky(w: &mut World, r: usize, ty: u32, pos: u32, after: bool, edge: 
             Handle::Map(_) => unreachable!(),
         };
         if after && p == n {
-            // nothing to anchor on: a refused creation is not a violation (DESIGN C14 F)
-            drop(txn);
+            // nothing to anchor on: a refused creation is not a violation (DESIGN C14 F); the end of a non-empty
+            // collection is reachable as an index scoped to the type itself
             w.cnt.inc("c14_refused_at_end");
             if si.is_some() {
                 w.cnt.inc("c14_created_at_end");
             }
+            let si = match &h {
+                Handle::Text(t) => StickyIndex::from_type(&txn, t, assoc),
+                Handle::XText(t) => StickyIndex::from_type(&txn, t, assoc),
+                Handle::Array(t) => StickyIndex::from_type(&txn, t, assoc),
+                Handle::XFrag(t) => StickyIndex::from_type(&txn, t, assoc),
+                Handle::XElem(t) => StickyIndex::from_type(&txn, t, assoc),
+                Handle::Map(_) => unreachable!(),
+            };
+            drop(txn);
+            let v1 = si.encode_v1();
+            let json = serde_json::to_string(&si).unwrap_or_default();
+            w.log.push(format!("sticky r{} {} end of the type {:?} -> {:?}", w.reps[r].cfg.id, c, assoc, si));
+            w.cnt.inc("c14_indexes_created");
+            w.cnt.inc("c14_type_end_indexes_on_non_empty_collections");
+            w.ext.stickies.push(StickyRec { c, bid: h.id(), v1, json, after, anchor: None, label: String::new(), at_end: true, created_on: r });
             return Ok(());
         }
         if !after && p == 0 {
@@ -734,8 +793,48 @@ fn check_stickies(w: &mut World, r: usize) -> Result<(), Violation> {
     let mut checks = 0;
     let mut w_redone_checks = 0u64;
     let mut bad: Option<(String, String)> = None;
+    // unit of a type item -> unit of its re-created copy (undo manager)
+    let type_redone: HashMap<Uid, Uid> = {
+        let txn = rep.doc.transact();
+        yrs::verif::store_blocks(&txn).iter().filter(|b| b.kind == 0 && b.len == 1).filter_map(|b| b.redone.map(|r| ((b.id.client.get(), b.id.clock), (r.client.get(), r.clock)))).collect()
+    };
+    let mut restored_checks = 0u64;
+    let mut wrong_branch: Option<String> = None;
     for s in w.ext.stickies.iter() {
-        let Some(h) = live.get(&s.c) else { continue };
+        if wrong_branch.is_some() {
+            break;
+        }
+        let (h, ckey) = match live.get(&s.c) {
+            Some(h) => (h, s.c.clone()),
+            None => {
+                // an index scoped to a nested collection (its start / end) whose collection was deleted and brought back
+                // by undo: the collection now lives on as a re-created copy and the index has to follow it
+                if s.anchor.is_some() {
+                    continue;
+                }
+                let yrs::BranchID::Nested(id) = &s.bid else { continue };
+                let mut cur: Uid = (id.client.get(), id.clock);
+                let mut hops = 0;
+                while let Some(n) = type_redone.get(&cur) {
+                    cur = *n;
+                    hops += 1;
+                    if hops > 32 {
+                        break;
+                    }
+                }
+                if hops == 0 || hops > 32 {
+                    continue;
+                }
+                let key = format!("{:?}", yrs::BranchID::Nested(yrs::ID::new(yrs::ClientID::new(cur.0), cur.1)));
+                match live.get(&key) {
+                    Some(h) => {
+                        restored_checks += 1;
+                        (h, key)
+                    }
+                    None => continue,
+                }
+            }
+        };
         // serialisation: binary and JSON forms must give back the same index
         let si = match StickyIndex::decode_v1(&s.v1) {
             Ok(x) => x,
@@ -756,7 +855,7 @@ fn check_stickies(w: &mut World, r: usize) -> Result<(), Violation> {
             bad = Some(("serialization".into(), "association lost in serialisation".into()));
             break;
         }
-        let lay = lays.entry(s.c.clone()).or_insert_with(|| layout(rep, h));
+        let lay = lays.entry(ckey.clone()).or_insert_with(|| layout(rep, h));
         let Some(lay) = lay else { continue };
         let total: u32 = lay.widths.iter().sum();
         let want: u32 = match s.anchor {
@@ -822,8 +921,18 @@ fn check_stickies(w: &mut World, r: usize) -> Result<(), Violation> {
             }
         });
         let txn = rep.doc.transact();
-        let got = catch(|| si.get_offset(&txn).map(|o| o.index));
+        let got = catch(|| si.get_offset(&txn).map(|o| (o.index, o.branch.id())));
         drop(txn);
+        // an index scoped to the type names that type (or the copy undo re-created it as) - element anchors on
+        // byte-offset documents are a known finding (D9) and not looked at here
+        let got = got.map(|o| {
+            o.map(|(i, b)| {
+                if s.anchor.is_none() && b != h.id() {
+                    wrong_branch = Some(format!("sticky index {:?} scoped to {} resolves on r{} into {:?}, not into the live collection {:?}", si, s.c, rep.cfg.id, b, h.id()));
+                }
+                i
+            })
+        });
         checks += 1;
         if want_redone.is_some() {
             w_redone_checks += 1;
@@ -845,14 +954,20 @@ fn check_stickies(w: &mut World, r: usize) -> Result<(), Violation> {
             }
             Ok(Some(g)) => {
                 if g != want && Some(g) != want_redone {
-                    bad = Some((format!("wrong-offset:{}", cls), format!("sticky index {:?} (anchor {} {:?}, created on r{}) resolves to {} on r{} ({:?}) in {}, expected {} ; visible: {:?}", si, s.label, s.anchor, w.reps[s.created_on].cfg.id, g, rep.cfg.id, rep.kind, s.c, want, lay.labels)));
+                    bad = Some((format!("wrong-offset:{}", cls), format!("sticky index {:?} (anchor {} {:?}, created on r{}) resolves to {} on r{} ({:?}) in {}, expected {} ; visible: {:?}", si, s.label, s.anchor, w.reps[s.created_on].cfg.id, g, rep.cfg.id, rep.kind, if ckey == s.c { s.c.clone() } else { format!("{} (restored by undo as {})", s.c, ckey) }, want, lay.labels)));
                     break;
                 }
             }
         }
     }
+    if bad.is_none() {
+        if let Some(d) = wrong_branch {
+            bad = Some(("wrong-branch".into(), d));
+        }
+    }
     w.cnt.add("c14_resolutions_checked", checks);
     w.cnt.add("c14_resolutions_of_undone_anchors", w_redone_checks);
+    w.cnt.add("c14_resolutions_in_collections_restored_by_undo", restored_checks);
     if let Some((k, d)) = bad {
         return v(w, "C14", &k, d);
     }
@@ -1323,16 +1438,24 @@ fn check_lww(w: &mut World, r: usize) -> Result<(), Violation> {
         let gone = |x: &LwwWrite| rep.model.gcform.contains(&x.uid);
         match shown.get(&(c.clone(), key.clone())) {
             Some(label) => {
-                let Some(wv) = known.iter().find(|x| &x.label == label) else {
+                // several writes may carry the same plain value (a value written again): the shown value is fine if
+                // *some* write with this label is neither overwritten by a received write nor removed
+                let cands: Vec<&&LwwWrite> = known.iter().filter(|x| &x.label == label).collect();
+                if cands.is_empty() {
                     // value of a write this monitor did not record (prelim content of a nested map) - skip
                     continue;
-                };
-                if followed(wv) {
-                    let by: Vec<String> = known.iter().filter(|y| y.ctx.contains(&wv.uid)).map(|y| y.label.clone()).collect();
-                    let d = format!("r{}: {}[{}] shows {} ({:?}) although the integrated write(s) {:?} had seen it (overwritten value resurfaced)", rep.cfg.id, c, key, label, wv.uid, by);
-                    return viol("C05", "resurfaced-overwritten", format!("{} ;; log tail: {}", d, w.tail(6)));
                 }
-                if deleted(wv) && lo.contains(&wv.uid) {
+                if cands.len() > 1 {
+                    w.cnt.inc("c05_states_showing_a_value_written_more_than_once");
+                }
+                let fine = cands.iter().any(|x| !followed(x) && !(deleted(x) && lo.contains(&x.uid)));
+                if !fine {
+                    let wv = cands[0];
+                    if cands.iter().all(|x| followed(x)) {
+                        let by: Vec<String> = known.iter().filter(|y| y.ctx.contains(&wv.uid)).map(|y| y.label.clone()).collect();
+                        let d = format!("r{}: {}[{}] shows {} ({:?}) although the integrated write(s) {:?} had seen it (overwritten value resurfaced)", rep.cfg.id, c, key, label, wv.uid, by);
+                        return viol("C05", "resurfaced-overwritten", format!("{} ;; log tail: {}", d, w.tail(6)));
+                    }
                     let d = format!("r{}: {}[{}] shows {} ({:?}) although a removal of it has been received", rep.cfg.id, c, key, label, wv.uid);
                     return viol("C05", "resurfaced-removed", format!("{} ;; log tail: {}", d, w.tail(6)));
                 }
